@@ -300,7 +300,17 @@ func genIso(r *kit.Rand, kind string, big bool) []string {
 	if mixed {
 		mode, byName = "2", false
 	}
-	ls := []string{fmt.Sprintf("node %s %d %d %s %s", kind, p1, p2, mode, escList(dims))}
+	// 1 run in 3: a stateless STAGE between the groupBy and NODE that rebuilds the group identity of every point
+	// (delete of a group-by tag, a further groupBy, default / eval writing a tag), or the grouping configured on from()
+	st := stage{kind: "-"}
+	stTok := "-"
+	if !mixed && r.Chance(1, 3) {
+		stTok, byName = genStage(r, dims, byName)
+		st, _ = parseStage(stTok)
+		mode = b01(byName)
+	}
+	effBy := byName || (st.kind == "gb" && st.flag) // grouped by measurement where the points reach NODE
+	ls := []string{fmt.Sprintf("node %s %d %d %s %s %s", kind, p1, p2, mode, escList(dims), stTok)}
 	// groups with pairwise different structured keys and no ',' in a value (collisions have their own cases)
 	ng := r.Range(2, 4)
 	if big {
@@ -310,7 +320,7 @@ func genIso(r *kit.Rand, kind string, big bool) []string {
 	seen := map[string]bool{}
 	for tries := 0; len(gs) < ng && tries < 60; tries++ {
 		g := &grp{name: "m", tags: map[string]string{}}
-		if byName || r.Chance(1, 5) {
+		if effBy || r.Chance(1, 5) {
 			g.name = kit.Pick(r, []string{"m", "cpu", "m n"})
 		}
 		if mixed {
@@ -319,6 +329,21 @@ func genIso(r *kit.Rand, kind string, big bool) []string {
 		for _, d := range dims {
 			if r.Chance(7, 8) { // sometimes the tag is missing altogether
 				g.tags[d] = kit.Pick(r, cleanVals)
+			}
+		}
+		// directed: a TWIN of an earlier group - the same tags under another measurement (different groups exactly when
+		// grouping by measurement), or the same measurement and tags except one dimension (groups a stage may merge)
+		if len(gs) > 0 && !mixed && r.Chance(2, 5) {
+			prev := gs[r.Intn(len(gs))]
+			g.tags = map[string]string{}
+			for k, v := range prev.tags {
+				g.tags[k] = v
+			}
+			if effBy && (len(dims) == 0 || r.Chance(2, 3)) {
+				g.name = kit.Pick(r, []string{"m", "cpu", "m n"})
+			} else if len(dims) > 0 {
+				g.name = prev.name
+				g.tags[dims[r.Intn(len(dims))]] = kit.Pick(r, cleanVals)
 			}
 		}
 		k := gkey(byName || (mixed && g.name == "cpu"), g.name, dims, g.tags)
@@ -352,7 +377,7 @@ func genIso(r *kit.Rand, kind string, big bool) []string {
 		gs = append(gs, g)
 	}
 	// sometimes: two DIFFERENT groups whose ids collide (finding groupid-delimiter-collision): they share a receiver
-	if len(dims) == 2 && len(gs) >= 2 && r.Chance(1, 3) {
+	if len(dims) == 2 && len(gs) >= 2 && st.kind == "-" && r.Chance(1, 3) {
 		x := kit.Pick(r, []string{"x", "", "é"})
 		gs[0].tags = map[string]string{dims[0]: x + "," + dims[1] + "=y", dims[1]: "z"}
 		gs[1].tags = map[string]string{dims[0]: x, dims[1]: "y," + dims[1] + "=z"}
@@ -397,12 +422,67 @@ func genIso(r *kit.Rand, kind string, big bool) []string {
 			tags["x"] = kit.Pick(r, []string{"p", "q", "p,q"}) // a non-dimension tag
 		}
 		name := cur.name
-		if !byName && !mixed && r.Chance(1, 6) {
+		if !effBy && !mixed && r.Chance(1, 6) {
 			name = kit.Pick(r, []string{"m", "cpu"}) // not grouping by name: names may differ inside a group
 		}
 		ls = append(ls, fmt.Sprintf("pt %s %s %s %d", kit.Esc(name), mapTok(tags), fieldsTok(v), cur.t*1e9))
 	}
 	return ls
+}
+
+// genStage picks the stage token for the configured dimension list; it may turn grouping by measurement on (the case
+// that matters most: by measurement AND a stage that rebuilds the dimensions).
+func genStage(r *kit.Rand, dims []string, byName bool) (string, bool) {
+	var uniq []string
+	seen := map[string]bool{}
+	for _, d := range dims {
+		if !seen[d] {
+			seen[d] = true
+			uniq = append(uniq, d)
+		}
+	}
+	if len(uniq) > 0 && r.Chance(1, 2) {
+		byName = true
+	}
+	k := r.Intn(8)
+	if len(uniq) == 0 && k != 3 && k != 5 {
+		k = 7 // nothing to delete or regroup: only a non-dimension tag or the from() head
+	}
+	switch k {
+	case 0, 1, 2: // delete a group-by tag (sometimes every one, sometimes a non-dimension tag as well)
+		del := []string{uniq[r.Intn(len(uniq))]}
+		if r.Chance(1, 4) {
+			del = append([]string(nil), uniq...)
+		}
+		if r.Chance(1, 3) {
+			del = append(del, "x")
+		}
+		return "del:" + escList(del), byName
+	case 3: // delete only a tag that is no dimension
+		return "del:x", byName
+	case 4: // a further groupBy: coarser (a subset) or finer (one more dimension); by measurement as before or newly
+		var nd []string
+		if len(uniq) >= 2 && r.Chance(2, 3) {
+			nd = []string{uniq[r.Intn(len(uniq))]}
+		} else {
+			nd = append(append([]string(nil), uniq...), "x")
+		}
+		flag := byName // never an earlier by-measurement followed by a groupBy without it (documentation and code disagree)
+		if !byName && r.Chance(1, 3) {
+			flag = true
+		}
+		return "gb:" + b01(flag) + ":" + escList(nd), byName
+	case 5: // default() on a tag: a dimension (a missing value moves the point to the group of the default) or not
+		k := "x"
+		if len(uniq) > 0 && r.Chance(3, 4) {
+			k = uniq[r.Intn(len(uniq))]
+		}
+		return "deftag:" + kit.Esc(k) + ":" + kit.Esc(kit.Pick(r, []string{"dflt", "a", "A"})), byName
+	case 6: // eval().tags() overwriting a dimension: every point gets the value "1" there
+		return "evaltag:" + kit.Esc(uniq[r.Intn(len(uniq))]) + ":1", byName
+	default:
+		return "fromgb", byName
+	}
 }
 
 // ---------------------------------------------------------------------------------------------
